@@ -28,7 +28,8 @@ def valid50(mb):
     return all(bits(mb, k, k) == 1 for k in (1, 12, 24, 35, 46))
 
 def nonzero50(mb):
-    return bits(mb, 3, 11) != 0 and bits(mb, 14, 23) != 0 and bits(mb, 25, 34) != 0 and bits(mb, 37, 45) != 0 and bits(mb, 47, 56) != 0
+    # a signed field is sign + magnitude: the sign bit alone (the most negative value) is a non-zero field
+    return bits(mb, 2, 11) != 0 and bits(mb, 13, 23) != 0 and bits(mb, 25, 34) != 0 and bits(mb, 36, 45) != 0 and bits(mb, 47, 56) != 0
 
 def dec50(mb):
     trk = Fraction(90 * twos(bits(mb, 13, 13), bits(mb, 14, 23), 10), 512)
@@ -43,7 +44,7 @@ def valid60(mb):
     return all(bits(mb, k, k) == 1 for k in (1, 13, 24, 35, 46))
 
 def nonzero60(mb):
-    return bits(mb, 3, 12) != 0 and bits(mb, 14, 23) != 0 and bits(mb, 25, 34) != 0 and bits(mb, 37, 45) != 0 and bits(mb, 48, 56) != 0
+    return bits(mb, 2, 12) != 0 and bits(mb, 14, 23) != 0 and bits(mb, 25, 34) != 0 and bits(mb, 36, 45) != 0 and bits(mb, 47, 56) != 0
 
 def dec60(mb):
     h = Fraction(90 * twos(bits(mb, 2, 2), bits(mb, 3, 12), 10), 512)
@@ -64,7 +65,8 @@ EHS = ["selalt", "baro", "roll", "track", "tar", "gs", "tas", "hdg", "ias", "mac
 
 class C10(PropBase):
     id = "C10"
-    lean_modules = ["SqModel.Props.C10"]
+    lean_modules = ["SqModel.Props.C10", "SqModel.Proofs.Dispatch"]
+    extractors = ["dispatch"]
     rule = ("histories per aircraft of DF11 (CA 0..7), BDS 1,7 reports advertising random subsets of 4,0/5,0/6,0, and data "
             "replies (DF20 and DF21) whose MB is a BDS 4,0 / 5,0 / 6,0 register generated from physical values over the full "
             "range and both signs, every plausibility boundary +-1 LSB, registers with one status bit cleared / a reserved bit "
@@ -91,6 +93,13 @@ class C10(PropBase):
         for rate in (187, 188, -187, -188, 511, -512):
             out.append(("60", F.bds60(100, 250, 180, rate, 10)))
             out.append(("60", F.bds60(100, 250, 180, 10, rate)))
+        # sign bit set with an all-zero magnitude: the most negative value of each signed field (true track / heading 180 deg)
+        out.append(("50", F.bds50(10, -1024, 200, 10, 190)))
+        out.append(("50", F.bds50(-512, 100, 200, 10, 190)))
+        out.append(("50", F.bds50(10, 100, 200, -512, 190)))
+        out.append(("60", F.bds60(-1024, 250, 180, 10, 10)))
+        out.append(("60", F.bds60(100, 250, 180, -512, 10)))
+        out.append(("60", F.bds60(100, 250, 180, 10, -512)))
         # invalid variants: a status bit cleared, a reserved bit set, a zero value field
         good50 = F.bds50(-100, -500, 200, -40, 190)
         good60 = F.bds60(-300, 250, 180, -60, -58)
